@@ -134,6 +134,12 @@ func buildIntrinsics() map[string]Intrinsic {
 			m.Assert(fr, boolT(a[0]), m.str(a[1]))
 			return nil
 		}
+		t[p+"vAssertGhost"] = func(m *Machine, fr *Frame, fn *ssa.Function, a []Value) Value {
+			m.ghostAssert = true
+			m.Assert(fr, boolT(a[0]), m.str(a[1]))
+			m.ghostAssert = false
+			return nil
+		}
 		t[p+"vReach"] = func(m *Machine, fr *Frame, fn *ssa.Function, a []Value) Value {
 			m.reached[m.str(a[0])] = true
 			return nil
@@ -276,10 +282,19 @@ func buildIntrinsics() map[string]Intrinsic {
 					mx = n
 				}
 			}
+			if m.symbolicAllocs > 0 {
+				mx = 1 << 40 // some allocation size was a function of symbolic input
+			}
 			return m.tf.Const(64, uint64(mx))
+		}
+		t[p+"vGhostAllocGuard"] = func(m *Machine, fr *Frame, fn *ssa.Function, a []Value) Value {
+			m.allocGuardID = m.str(a[0])
+			m.allocGuardBound = m.concreteInt(fr, a[1].(*Term), "alloc guard bound")
+			return nil
 		}
 		t[p+"vGhostAllocReset"] = func(m *Machine, fr *Frame, fn *ssa.Function, a []Value) Value {
 			m.allocLog = nil
+			m.symbolicAllocs = 0
 			return nil
 		}
 		t[p+"vGhostTrackAllocs"] = func(m *Machine, fr *Frame, fn *ssa.Function, a []Value) Value {
